@@ -70,7 +70,7 @@ TRANSPORTS = {
         variants=FD_VARIANTS,    # every schedule on pipe / pty / socket descriptor / FIFO / TCP x select / poll x bytes / unicode
         variants_for=fd_variants_for,
         unicode=lambda k: bool(fd_variant(k % FD_VARIANTS)['encoding']),
-        cap=lambda q: 1200 if q else 60000,
+        cap=lambda q: 2000 if q else 60000,
     ),
     'socket': dict(
         module='MCSockRead',
@@ -433,10 +433,6 @@ def run_transport(ctx, pool, transport, include_blocked=False):
             vs = [k]
         else:
             vs = T['variants_for'](s_) if 'variants_for' in T else list(range(T['variants']))
-            if quick and len(vs) > 8:
-                # quick tier: 8 of the worlds per schedule, rotating (every world gets every 2nd-3rd schedule)
-                o = (k * 3) % len(vs)
-                vs = (vs[o:] + vs[:o])[::len(vs) // 8][:8]
             vs = [v + 1000 * (k % 2) for v in vs]
         for v in vs:
             jobs.append((transport, ctx.work, s_, v, g.nodes[root]))
